@@ -28,7 +28,7 @@ WALL = {"quick": 900, "thorough": 7200}
 
 
 def cases(tier):
-    return 1200 if tier == "quick" else 50000
+    return 9000 if tier == "quick" else 200000
 
 
 def floors(tier):
